@@ -98,7 +98,7 @@ CLAIMED = {
              'the attribute classes equal the RFC category table; framing and encoder step contracts for lists of any length; TunnelEncaps.construct '
              '(SR-TE policy: preference, binding SID, ENLP, priority, name, remote endpoint, segment lists with segment types 1/3/5/6 with and '
              'without SID, weights) against an independent structural walker of the nested TLVs.',
-        note='T3; shapes enumerated; PMSI (ingress replication) and the SR-TE policy NLRI with its MP_REACH envelope are under contract; IPv6 flowspec is NOT; the MP families are under contract in C07',
+        note='T3; shapes enumerated; PMSI (ingress replication) and the SR-TE policy NLRI with its MP_REACH envelope are under contract; of IPv6 flowspec only the prefix component (length, offset, pattern) — with an open known finding for offsets that are not a multiple of 8; the MP families are under contract in C07',
         ref='5 C08'),
     'C09': dict(
         text='decoders against an independent RFC encoder (specs/attrs.py) with each legal variant: extended-length flag on short attributes, '
